@@ -74,11 +74,6 @@ def mutate (st : St) (x : String) (f : S → S) : St × String :=
 
 /-- `a.op(b) ∥ b.op(a)` on two wrappers in the lock LTS: is a deadlocked state reachable? (bounded DFS over all
 schedules; the two bodies have at most 2·(6+2·2) steps) -/
-def abbaProgs (ra rb : Nat) : Nat → List (Lts.Call Unit Unit)
-  | 0 => [{ recv := 0, operand := some 1, cbs := ra, locked := true, opLocked := true, f := fun _ _ => ((), ()) }]
-  | 1 => [{ recv := 1, operand := some 0, cbs := rb, locked := true, opLocked := true, f := fun _ _ => ((), ()) }]
-  | _ => []
-
 def deadlockReachable (n : Nat) : Nat → Lts.State Unit Unit → Bool
   | 0, _ => false
   | fuel+1, s =>
@@ -88,7 +83,7 @@ def deadlockReachable (n : Nat) : Nat → Lts.State Unit Unit → Bool
 
 def abbaDeadlocks (op : BinOp) (a b : S) : Bool :=
   let rounds (r : S) : Nat := if callsOperand op r then min r.length 2 |>.max 1 else 0
-  deadlockReachable 2 40 (Lts.init (fun _ => ()) () (abbaProgs (rounds a) (rounds b)))
+  deadlockReachable 2 40 (Lts.unitInit (Lts.abbaProgs (rounds a) (rounds b)))
 
 /-- one thread-op token of `conc`; returns the new set and the number of `true` CheckedAdd answers -/
 def concTok (lookup : String → Option Prov) (w : Width) (fixed : Bool) (s : S) (tok : String) : Option (S × Nat) :=
